@@ -337,3 +337,16 @@ pub fn run_sql_with(ctx: &Arc<ExecutionContext>, sql: &str, opt: &Optimizer) -> 
     };
     run_logical(ctx, &optimized)
 }
+
+/// `ctx.sql`, except that statements which would trip the recorded C03 finding
+/// (GroupKeyReduction on a non-unique NULL-free key over Parquet, whose
+/// ANY_VALUE choice is also schedule-dependent) run through the production
+/// pipeline minus that one rule. Used by checks whose subject is not the
+/// optimizer, so that one known defect does not drown their signal.
+pub fn run_sql_avoiding_gkr(ctx: &Arc<ExecutionContext>, sql: &str, db: &[Table], parquet: bool) -> Outcome {
+    if parquet && crate::checks::c03::groups_by_nonunique_nullfree_key(sql, db) {
+        run_sql_with(ctx, sql, &optimizer_without(ctx, &["GroupKeyReduction"]))
+    } else {
+        run_sql(ctx, sql)
+    }
+}
